@@ -15,7 +15,14 @@
  *   lkcfg                                      runs the T1 config probes named on the command line
  *   lkapi <file> <func> / lkcb <file> <func> <callee> <k>   facts of the static scan of the tree (sites file)
  *
- * Tokens: L U (API entry/exit)  K+ K- (coap_lock_callback)  R+ R- (…_ret)  X+ X- (…_release)  Y+ Y- (…_ret_release).
+ * Tokens: L U (API entry/exit)  K+ K- (coap_lock_callback)  R+ R- (…_ret)  X+ X- (…_release)  Y+ Y- (…_ret_release)
+ *         W+ W- (release window of an internal function: coap_lock_unlock(c) … coap_lock_lock(c, failed)).
+ *   lkwin <file> <func>                        lock-balance facts of the static scan (sites file)
+ *   lkeintr <rc>                               an I/O thread in coap_io_process() is interrupted by a signal while
+ *                                              another thread holds the lock inside an event callback: `ok` |
+ *                                              `unserialised early-return=<0|1> lock-owner-assert=<0|1>`
+ *   lkctxfail <mode>                           coap_new_context() made to fail (mode 0: the listen address cannot be
+ *                                              bound): `ret=null held=<the mutex is still taken afterwards>`
  * argv: <binary for the other rc variant | -> <sites file | -> [<name>=<probe binary>]...
  * This binary serves the lock variant it was compiled with (`rc` = COAP_THREAD_RECURSIVE_CHECK of its libcoap build) and
  * forwards lines for the other variant to the co-process.
@@ -88,9 +95,9 @@ static void print_obs(const char *prefix) {
 }
 
 /* ------------------------------------------------------------------ token programs */
-enum { T_L, T_U, T_KI, T_KO, T_RI, T_RO, T_XI, T_XO, T_YI, T_YO, T_BAD };
+enum { T_L, T_U, T_KI, T_KO, T_RI, T_RO, T_XI, T_XO, T_YI, T_YO, T_WI, T_WO, T_BAD };
 static int tok_of(const char *s) {
-  static const char *n[] = {"L", "U", "K+", "K-", "R+", "R-", "X+", "X-", "Y+", "Y-"};
+  static const char *n[] = {"L", "U", "K+", "K-", "R+", "R-", "X+", "X-", "Y+", "Y-", "W+", "W-"};
   for (int i = 0; i < T_BAD; i++) if (!strcmp(s, n[i])) return i;
   return T_BAD;
 }
@@ -98,15 +105,15 @@ static int tok_of(const char *s) {
 #define MAXTOK 4096
 /* the same grammar as `wn` of the model */
 static int well_nested(const int *t, int n) {
-  static unsigned char st[MAXTOK + 1];   /* 0 = api, 1..4 = callback kind */
+  static unsigned char st[MAXTOK + 1];   /* 0 = api, 1..4 = callback kind, 5 = release window */
   int sp = 0;
   for (int i = 0; i < n; i++) {
     int top = sp ? st[sp - 1] : -1;
     switch (t[i]) {
     case T_L: if (top == 0) return 0; st[sp++] = 0; break;
     case T_U: if (top != 0) return 0; sp--; break;
-    case T_KI: case T_RI: case T_XI: case T_YI: if (top != 0) return 0; st[sp++] = (unsigned char)(1 + (t[i] - T_KI) / 2); break;
-    case T_KO: case T_RO: case T_XO: case T_YO: if (top != 1 + (t[i] - T_KO) / 2) return 0; sp--; break;
+    case T_KI: case T_RI: case T_XI: case T_YI: case T_WI: if (top != 0) return 0; st[sp++] = (unsigned char)(1 + (t[i] - T_KI) / 2); break;
+    case T_KO: case T_RO: case T_XO: case T_YO: case T_WO: if (top != 1 + (t[i] - T_KO) / 2) return 0; sp--; break;
     default: return 0;
     }
   }
@@ -139,12 +146,14 @@ static void turn_end(prog_t *p) {
     print_obs("");
 }
 
+static volatile int h_real_block;   /* lkeintr: real threads inside the library: coap_mutex_lock() really blocks */
 #if LOCKING
 /* coap_mutex_lock() of the real lock functions.  Single-thread mode: a thread that would block on a mutex it cannot
  * get is a self-deadlock; report it and leave (the line is over).  Multi-thread mode: "blocked" is reported to the
  * scheduler and the acquisition is retried at the thread's next turn (turn-based semantics, as in the model). */
 static int h_mutex_lock(pthread_mutex_t *m) {
   prog_t *p = self;
+  if (h_real_block) return pthread_mutex_lock(m);
   for (;;) {
     if (pthread_mutex_trylock(m) == 0) return 0;
     if (!p || p->idx < 0) {
@@ -175,7 +184,7 @@ static void run_lib(prog_t *p) {
   while (p->pos < p->n) {
     int t = p->tok[p->pos];
     volatile int r = 0;
-    if (t != T_KI && t != T_RI && t != T_XI && t != T_YI) return;
+    if (t != T_KI && t != T_RI && t != T_XI && t != T_YI && t != T_WI) return;
     turn_begin(p);
     p->pos++;
     switch (t) {
@@ -183,6 +192,11 @@ static void run_lib(prog_t *p) {
     case T_RI: coap_lock_callback_ret(r, ctx, cb_body(p)); break;
     case T_XI: coap_lock_callback_release(ctx, cb_body(p), h_fault = 1); break;
     case T_YI: coap_lock_callback_ret_release(r, ctx, cb_body(p), h_fault = 1); break;
+    case T_WI:              /* a release window of library code, as around epoll_wait() in coap_io_process_with_fds_lkd() */
+      coap_lock_unlock(ctx);
+      r = cb_body(p);
+      coap_lock_lock(ctx, h_fault = 1);
+      break;
     default: break;
     }
     (void)r;
@@ -364,15 +378,20 @@ static void do_cfg(void) {
 
 static const char *sites_path;
 static void do_site(const char *kind, char **w, int n) {
-  /* sites file lines:  api <file> <func> <locks> <lkd> <unlocks>  |  cb <file> <func> <callee> <k> <wrapped> */
+  /* sites file lines:  api <file> <func> <locks> <lkd> <unlocks>  |  cb <file> <func> <callee> <k> <wrapped>
+   *                    win <file> <func> <held> <windows> <exits> <loops> <fail> <order> <quiet> */
   char line[1024];
   FILE *f = sites_path ? fopen(sites_path, "r") : NULL;
   if (!f) { printf("no-sites"); return; }
   while (fgets(line, sizeof(line), f)) {
-    char *v[8]; int m = h_words(line, v, 8);
+    char *v[12]; int m = h_words(line, v, 12);
     if (m < 1 || strcmp(v[0], kind)) continue;
     if (!strcmp(kind, "api") && m == 6 && n == 2 && !strcmp(v[1], w[0]) && !strcmp(v[2], w[1])) {
       printf("locks=%s lkd=%s unlocks=%s", v[3], v[4], v[5]); fclose(f); return;
+    }
+    if (!strcmp(kind, "win") && m == 10 && n == 2 && !strcmp(v[1], w[0]) && !strcmp(v[2], w[1])) {
+      printf("held=%s windows=%s exits=%s loops=%s fail=%s order=%s quiet=%s", v[3], v[4], v[5], v[6], v[7], v[8], v[9]);
+      fclose(f); return;
     }
     if (!strcmp(kind, "cb") && m == 6 && n == 4 && !strcmp(v[1], w[0]) && !strcmp(v[2], w[1]) && !strcmp(v[3], w[2]) && !strcmp(v[4], w[3])) {
       printf("wrapped=%s", v[5]); fclose(f); return;
@@ -381,6 +400,115 @@ static void do_site(const char *kind, char **w, int n) {
   fclose(f);
   printf("no-such-site");
 }
+
+/* ------------------------------------------------------------------ lkctxfail: a failing coap_new_context() */
+static void do_ctxfail(int mode) {
+  coap_address_t a;
+  coap_context_t *c;
+  coap_address_init(&a);
+  /* mode 0: an address family no socket can be created for -> coap_new_endpoint_lkd() fails -> `goto onerror` */
+  a.addr.sa.sa_family = mode == 0 ? AF_UNSPEC : AF_INET;
+  if (mode != 0) { printf("bad-op"); return; }
+  c = coap_new_context(&a);
+  first_out = 1;
+  if (c) { printf("ret=ctx"); coap_free_context(c); return; }
+#if LOCKING
+  sem_post(&obs_req);
+  sem_wait(&obs_resp);
+  printf("ret=null held=%d", obs_held);
+#else
+  printf("ret=null held=0");
+#endif
+  reset_lock();
+}
+
+/* ------------------------------------------------------------------ lkeintr: a signal interrupts the I/O thread's wait
+ * An I/O thread loops in coap_io_process(ctx, 200).  The main thread waits until it sits in epoll_wait() (inside the
+ * release window of coap_io_process_with_fds_lkd), then calls coap_handle_event(): the event handler runs under the
+ * library lock (coap_lock_callback_ret), sends SIGUSR1 to the I/O thread (no-op handler, no SA_RESTART: epoll_wait()
+ * returns EINTR) and keeps the lock for 60 ms.  Serialised = the I/O thread does not come back from coap_io_process()
+ * during that time and no lock-owner assert() of coap_lock_unlock_func fires.  `ok` needs >= 1 round in which
+ * epoll_wait() really returned EINTR (counted by the --wrap'ed epoll_wait). */
+#ifdef COAP_EPOLL_SUPPORT
+#include <sys/epoll.h>
+int __real_epoll_wait(int, struct epoll_event *, int, int);
+static pthread_t ew_thread;
+static volatile int ew_track, ew_in, ew_eintr;
+int __wrap_epoll_wait(int epfd, struct epoll_event *ev, int max, int to) {
+  int r, mine = ew_track && pthread_equal(pthread_self(), ew_thread);
+  if (mine) ew_in = 1;
+  r = __real_epoll_wait(epfd, ev, max, to);
+  if (mine) { if (r < 0 && errno == EINTR) ew_eintr++; ew_in = 0; }
+  return r;
+}
+static coap_context_t *ei_ctx;
+static volatile int ei_stop, ei_in_handler, ei_early, ei_calls;
+static void on_usr1(int sig) { (void)sig; }
+static void *ei_io(void *arg) {
+  (void)arg;
+  self = NULL;
+  while (!ei_stop) {
+    coap_io_process(ei_ctx, 200);
+    if (ei_in_handler) ei_early = 1;      /* came back while the other thread is inside its locked callback */
+    ei_calls++;
+  }
+  return NULL;
+}
+static int ei_event(coap_session_t *session, const coap_event_t event) {
+  int before = ei_calls;
+  (void)session; (void)event;
+  ei_in_handler = 1;                      /* the library lock is held by this (the main) thread */
+  pthread_kill(ew_thread, SIGUSR1);
+  for (int i = 0; i < 60 && ei_calls == before; i++) usleep(1000);
+  if (ei_calls != before) ei_early = 1;
+  ei_in_handler = 0;
+  return 0;
+}
+static void do_eintr(void) {
+#if LOCKING
+  struct sigaction sa;
+  int effective = 0;
+  memset(&sa, 0, sizeof(sa));
+  sa.sa_handler = on_usr1;
+  sigaction(SIGUSR1, &sa, NULL);
+  ei_ctx = coap_new_context(NULL);
+  if (!ei_ctx) { printf("no-context"); return; }
+  coap_register_event_handler(ei_ctx, ei_event);
+  ei_stop = ei_in_handler = ei_early = ei_calls = 0; ew_in = ew_eintr = 0;
+  h_real_block = 1;
+  pthread_create(&ew_thread, NULL, ei_io, NULL);
+  ew_track = 1;
+  for (int round = 0; round < 12 && effective < 2 && !ei_early && !h_fault; round++) {
+    int e0 = ew_eintr, c0;
+    for (int i = 0; i < 1000 && !ew_in; i++) usleep(1000);
+    usleep(3000);                         /* let it enter the system call */
+    c0 = ei_calls;
+    coap_handle_event(ei_ctx, COAP_EVENT_KEEPALIVE_FAILURE, NULL);
+    for (int i = 0; i < 400 && ei_calls == c0; i++) usleep(1000);
+    if (ew_eintr != e0) effective++;
+  }
+  ei_stop = 1;
+  pthread_kill(ew_thread, SIGUSR1);
+  pthread_join(ew_thread, NULL);
+  ew_track = 0;
+  {
+    int fault = h_fault;
+    h_real_block = 0;
+    reset_lock();
+    coap_free_context(ei_ctx);
+    ei_ctx = NULL;
+    if (ei_early || fault) printf("unserialised early-return=%d lock-owner-assert=%d", ei_early, fault);
+    else if (!effective) printf("ineffective");
+    else printf("ok");
+  }
+  reset_lock();
+#else
+  printf("ok");
+#endif
+}
+#else
+static void do_eintr(void) { printf("no-epoll"); }
+#endif
 
 /* ------------------------------------------------------------------ lksmoke (support: TSan multi-thread run) */
 static const char *smoke_bin;
@@ -444,12 +572,13 @@ static void step(char *line) {
   if (l >= sizeof(copy)) { printf("bad-op"); return; }
   memcpy(copy, line, l); copy[l] = 0;
   int n = h_words(line, w, MAXTOK + 8);
-  if (n >= 2 && (!strcmp(w[0], "lkseq") || !strcmp(w[0], "lksched"))) {
+  if (n >= 2 && (!strcmp(w[0], "lkseq") || !strcmp(w[0], "lksched") || !strcmp(w[0], "lkeintr"))) {
     int rc = !strcmp(w[1], "1") ? 1 : !strcmp(w[1], "0") ? 0 : -1;
     if (rc < 0) { printf("bad-op"); return; }
     if (rc != MY_RC) { co_forward(copy); return; }
     alarm(20);
-    if (!strcmp(w[0], "lkseq")) do_seq(w + 2, n - 2);
+    if (!strcmp(w[0], "lkeintr")) { if (n == 2) do_eintr(); else printf("bad-op"); }
+    else if (!strcmp(w[0], "lkseq")) do_seq(w + 2, n - 2);
     else if (n == 4) do_sched(w[2], w[3]);
     else printf("bad-op");
     alarm(0);
@@ -459,6 +588,8 @@ static void step(char *line) {
   if (n == 1 && !strcmp(w[0], "lkcfg")) { do_cfg(); return; }
   if (n == 3 && !strcmp(w[0], "lkapi")) { do_site("api", w + 1, 2); return; }
   if (n == 5 && !strcmp(w[0], "lkcb")) { do_site("cb", w + 1, 4); return; }
+  if (n == 3 && !strcmp(w[0], "lkwin")) { do_site("win", w + 1, 2); return; }
+  if (n == 2 && !strcmp(w[0], "lkctxfail")) { alarm(20); do_ctxfail(atoi(w[1])); alarm(0); return; }
   printf("bad-op");
 }
 
